@@ -256,6 +256,11 @@ var _ = pr.AutoF
 //@   unclaimed call-*-pre* "box and style accessors on table boxes"
 // CSS 2.1 §17.5.2.2: the used width of a table is the greater of its specified width W and its minimum: a
 // width given in px is the floor of the width the table reports
+// a spanning cell already disposes of the HORIZONTAL border-spacing between the columns it spans (the first of
+// the two border-spacing values), colspan - 1 times; only what its content needs beyond that is distributed
+//@   assert after spacing#1: spacing == real(cell.Colspan - 1) * table.Style.GetBorderSpacing()[0].Value
+//@   call distributeExcessWidth#1 assert[min-content-excess] arg2 == minContent - (columnsMinContent + spacing) && arg2 > 0 && arg7 == columnSlice && columnSlice[0] == cell.GridX && columnSlice[1] == cell.GridX + cell.Colspan
+//@   call distributeExcessWidth#2 assert[max-content-excess] arg2 == maxContent - (columnsMaxContent + spacing) && arg2 > 0 && arg7 == columnSlice
 //@   let w = table.Style.GetWidth()
 //@   call adjust#3 assert[specified-width-is-the-minimum] w.S != "auto" && w.Unit == pr.Px ==> arg2 == w.Value
 
